@@ -212,10 +212,14 @@ def gillespie_stage1(rec, netname, spacedesc, chem=None, fields=("state", "k", "
             sr = sum((I.toreal(tab[c]) for c in channel_order(system) if c[0] == "R" and c[1] == i), z3.RealVal(0))
             sd = sum((I.toreal(tab[c]) for c in channel_order(system) if c[0] == "D" and c[1] == i), z3.RealVal(0))
             tot = tot + sr + sd
-            s1, _ = _prove(rec, I, "cell %d reaction partial sum" % i, I.toreal(a0r[i]) == sr, desc)
-            s2, _ = _prove(rec, I, "cell %d diffusion partial sum" % i, I.toreal(a0d[i]) == sd, desc)
+            def _sums_violation(m, which):
+                rec.violation("gillespie-sums:%s" % netname, "the %s of the Gillespie engine is not the sum of the per-channel propensities it walks through when it picks the event: "
+                              "channels listed after the discrepancy are drawn with the wrong probability or never (%s)" % (which, desc),
+                              {"structure": desc, "model": str(m)[:500]}, replayed=_audit_starved(system))
+            s1, _ = _prove(rec, I, "cell %d reaction partial sum" % i, I.toreal(a0r[i]) == sr, desc, lambda m, i=i: _sums_violation(m, "reaction partial sum of cell %d" % i))
+            s2, _ = _prove(rec, I, "cell %d diffusion partial sum" % i, I.toreal(a0d[i]) == sd, desc, lambda m, i=i: _sums_violation(m, "diffusion partial sum of cell %d" % i))
             ok = ok and s1 == "holds" and s2 == "holds"
-        s3, _ = _prove(rec, I, "a0 = sum of all propensities", I.toreal(obj.field("a0")) == tot, desc)
+        s3, _ = _prove(rec, I, "a0 = sum of all propensities", I.toreal(obj.field("a0")) == tot, desc, lambda m: _sums_violation(m, "total propensity a0"))
         # sign facts used by stage 2 / legality (from the spec side)
         nonneg = z3.And(*[(react[(c[1], c[2], c[3])] if c[0] == "R" else diff[(c[1], c[2], c[3])][0]) >= 0 for c in channel_order(system)]) \
             if channel_order(system) else z3.BoolVal(True)
@@ -613,6 +617,76 @@ def audit_real(system, option, seeds=range(1, 13), steps=60, dt=0.015625, state=
                 if not ts[k] > ts[k - 1]:
                     anomalies.setdefault("time-not-increasing", {"seed": seed, "sample": k})
     return anomalies
+
+
+def _audit_starved(system):
+    """replay for 'sums != table': on the real build, from a state where ONE cell is empty and the others hold 200 of every species,
+    a legal channel into / inside the empty cell's neighbourhood with a large expected count never fires (or fires far too rarely)"""
+    try:
+        from .enginelegs import real_run
+        ns, nc = len(system.network.species), system.space.size()
+        chem = [int(c) for c in system.chemostats]
+        for empty in range(nc):
+            sys2 = system.copy()
+            x0 = [0.0 if i == empty else 200.0 for s in range(ns) for i in range(nc)]
+            sys2.state = x0
+            st = SymTab(all_concrete=True)
+            react, diff, change, suff = propensities(sys2, st, lambda s, i: z3.RealVal(x0[s * nc + i]))
+
+            def num(t):
+                t = z3.simplify(t) if is_sym(t) else t
+                return float(t.as_fraction()) if is_sym(t) else float(t)
+            props = {}
+            for ch in channel_order(sys2):
+                p = react[(ch[1], ch[2], ch[3])] if ch[0] == "R" else diff[(ch[1], ch[2], ch[3])][0]
+                try:
+                    props[ch] = num(p)
+                except Exception:
+                    props[ch] = 0.0
+            a0 = sum(props.values())
+            if a0 <= 0:
+                continue
+            deltas = {}
+            for ch, vec in change.items():
+                d = [0] * (ns * nc)
+                for (s, i), v in vec.items():
+                    if not chem[s * nc + i]:
+                        d[s * nc + i] += v
+                deltas[ch] = tuple(d)
+            steps = 150
+            fired = {}
+            for seed in (1, 2, 3, 4):
+                script = make_script(sys2, "gillespie", 0.015625, policy="on_iteration", t_sample=(0,), t_max=1e9, isp="none", seed=seed)
+                data, ts = real_run(script, "gillespie", steps)
+                for k in range(1, len(ts)):
+                    d = tuple(int(round(a - b)) for a, b in zip(data[k * ns * nc:(k + 1) * ns * nc], data[(k - 1) * ns * nc:k * ns * nc]))
+                    fired[d] = fired.get(d, 0) + 1
+            total = 4 * steps
+            for ch, p in props.items():
+                d = deltas.get(ch)
+                if d is None or not any(d):
+                    continue
+                # several channels can share one change vector: pool them
+                pool = sum(q for c2, q in props.items() if deltas.get(c2) == d)
+                expect = total * pool / a0        # rough (the state moves), but a channel expected > 40 times that never fires is starved
+                if expect > 40 and fired.get(d, 0) == 0:
+                    return True
+        # canonical scenario: one diffusing species, chemostated at 200 in two adjacent cells next to an empty free cell
+        # ([free][chem][chem] along x, reflecting): the free cell must fill up
+        from strengths import RDNetwork, Species, RDSystem, RDGridSpace
+        net = RDNetwork(species=[Species("A", D=1.0)], reactions=[])
+        for order in ([0.0, 200.0, 200.0], [200.0, 200.0, 0.0]):
+            sysc = RDSystem(net, RDGridSpace(w=3, h=1, d=1, cell_vol=1.0), state=order, chemostats=[0 if v == 0 else 1 for v in order])
+            got = 0.0
+            for seed in (1, 2, 3):
+                data, ts = real_run(make_script(sysc, "gillespie", 0.015625, policy="on_iteration", t_sample=(0,), t_max=1e9, isp="none", seed=seed), "gillespie", 400)
+                free = order.index(0.0)
+                got = max(got, max(data[k * 3 + free] for k in range(len(ts))))
+            if got == 0.0:
+                return True
+        return False
+    except Exception:
+        return False
 
 
 def _audit_sparse(system):
